@@ -91,6 +91,9 @@ pub struct WorldCfg {
     /// 0 = runnable tasks FIFO, environment events only when no task is runnable;
     /// 1 = environment events first, then tasks FIFO; 2 = runnable tasks LIFO, then environment events
     pub policy: u8,
+    /// a pipe read that has data may instead yield cooperatively (wake the reader's waker and
+    /// return Pending), as tokio's I/O resources do when the task budget is used up: choice point
+    pub coop: bool,
 }
 
 impl Default for WorldCfg {
@@ -100,6 +103,7 @@ impl Default for WorldCfg {
             yields: true,
             select: true,
             policy: 0,
+            coop: false,
         }
     }
 }
@@ -113,10 +117,14 @@ struct World {
     log: Vec<String>,
     conds: BTreeMap<String, (bool, Vec<Waker>)>,
     panics: Vec<String>,
+    livelocks: Vec<String>,
     current: Option<TaskId>,
     idle_waiters: Vec<(u64, Waker)>,
     idle_fired: std::collections::BTreeSet<u64>,
     idle_next: u64,
+    coop_exhausted: bool,
+    coop_yields_in_poll: u32,
+    coop_budget_events: u32,
 }
 
 thread_local! {
@@ -233,10 +241,14 @@ pub fn reset(cfg: WorldCfg) {
             log: Vec::new(),
             conds: BTreeMap::new(),
             panics: Vec::new(),
+            livelocks: Vec::new(),
             current: None,
             idle_waiters: Vec::new(),
             idle_fired: Default::default(),
             idle_next: 0,
+            coop_exhausted: false,
+            coop_yields_in_poll: 0,
+            coop_budget_events: 0,
         })
     });
 }
@@ -443,6 +455,40 @@ impl AsyncRead for PipeReader {
         }
         nested_env_point();
         let d = self.d;
+        // Cooperative budget (tokio): once it runs out during a task poll, EVERY read of that poll wakes
+        // the reader's waker and returns Pending, until the task has returned to the executor. The moment
+        // it runs out is a choice point; code that keeps re-polling instead of returning is a livelock.
+        let (coop_on, exhausted) = with(|w| (w.cfg.coop && w.current.is_some(), w.coop_exhausted));
+        let now_exhausted = if coop_on && !exhausted && with(|w| w.coop_budget_events < 2) && explore::choose(kind::READ, 2) == 1 {
+            with(|w| {
+                w.coop_exhausted = true;
+                w.coop_budget_events += 1;
+                let s = w.step;
+                w.log.push(format!("@{} cooperative budget exhausted (read of duct {})", s, d));
+            });
+            true
+        } else {
+            exhausted && coop_on
+        };
+        if now_exhausted {
+            let spin = with(|w| {
+                w.coop_yields_in_poll += 1;
+                w.coop_yields_in_poll > 200
+            });
+            if spin {
+                with(|w| {
+                    w.coop_exhausted = false;
+                    let name = w.current.map(|t| w.tasks[t].name.clone()).unwrap_or_default();
+                    let s = w.step;
+                    let m = format!("LIVELOCK in {}: within one poll a read yielded cooperatively (woke its waker, returned Pending) more than 200 times and the task still has not returned to the executor", name);
+                    w.log.push(format!("@{} {}", s, m));
+                    w.livelocks.push(m);
+                });
+            } else {
+                cx.waker().wake_by_ref();
+                return Poll::Pending;
+            }
+        }
         with(|w| {
             let duct = &mut w.ducts[d];
             duct.read_calls += 1;
@@ -854,6 +900,9 @@ fn poll_task(id: TaskId, pos: usize) {
         t.queued = false;
         t.polls += 1;
         w.current = Some(id);
+        // a fresh cooperative budget for every task poll
+        w.coop_exhausted = false;
+        w.coop_yields_in_poll = 0;
         t.fut.take()
     });
     let Some(mut fut) = fut else {
@@ -905,6 +954,11 @@ fn poll_task(id: TaskId, pos: usize) {
 
 pub fn panics() -> Vec<String> {
     with(|w| w.panics.clone())
+}
+
+/// tasks that kept re-polling a cooperatively yielding read instead of returning to the executor
+pub fn livelocks() -> Vec<String> {
+    with(|w| w.livelocks.clone())
 }
 
 // ---------------------------------------------------------------- actor helpers
